@@ -3638,6 +3638,93 @@ def undo_cm_classes(tree: ast.Module, known: Set[str]) -> List[str]:
     return out
 
 
+def positional_required_arguments(trees: Dict[str, ast.Module]) -> List[str]:
+    """`self.remove_module(module=m)` is read as `self.remove_module(m)`: arguments passed by keyword to *required* parameters are
+    moved to their positions when the callee's signature is known (a method of the enclosing class or its bases, or the only
+    definition of that name in the program), the keywords continue the positional prefix without a gap and appear in
+    parameter order (so the evaluation order of the argument expressions is unchanged).  Optional parameters stay keywords -
+    that is how the pinned tree passes them and how the rules look them up."""
+    defs: Dict[str, List[Tuple[Optional[str], ast.FunctionDef]]] = {}
+    bases: Dict[str, List[str]] = {}
+    for t in trees.values():
+        for n in ast.walk(t):
+            if isinstance(n, ast.ClassDef):
+                bases.setdefault(n.name, []).extend(b.id for b in n.bases if isinstance(b, ast.Name))
+                for m in n.body:
+                    if isinstance(m, (ast.FunctionDef, ast.AsyncFunctionDef)):
+                        defs.setdefault(m.name, []).append((n.name, m))
+        for m in t.body:
+            if isinstance(m, (ast.FunctionDef, ast.AsyncFunctionDef)):
+                defs.setdefault(m.name, []).append((None, m))
+
+    def mro_names(c, seen=()):
+        out = [c]
+        for b in bases.get(c, []):
+            if b not in seen:
+                out += mro_names(b, seen + (c,))
+        return out
+
+    def signature(fn: ast.FunctionDef, bound: bool):
+        if fn.args.vararg or fn.args.posonlyargs:
+            return None
+        ps = [a.arg for a in fn.args.args]
+        kinds = [ast.unparse(d).split(".")[-1] for d in fn.decorator_list]
+        if any(k not in ("staticmethod", "classmethod") for k in kinds):
+            return None
+        if bound and "staticmethod" not in kinds:
+            ps = ps[1:]
+        nreq = len(fn.args.args) - len(fn.args.defaults) - (1 if bound and "staticmethod" not in kinds else 0)
+        return ps, max(nreq, 0)
+
+    count = [0]
+
+    class P(ast.NodeTransformer):
+        def __init__(self):
+            self.cls: List[Optional[str]] = [None]
+
+        def visit_ClassDef(self, c):
+            self.cls.append(c.name)
+            self.generic_visit(c)
+            self.cls.pop()
+            return c
+
+        def visit_Call(self, n):
+            self.generic_visit(n)
+            if not n.keywords or any(k.arg is None for k in n.keywords) or any(isinstance(a, ast.Starred) for a in n.args):
+                return n
+            sig = None
+            if isinstance(n.func, ast.Attribute):
+                name = n.func.attr
+                cands = defs.get(name, [])
+                if isinstance(n.func.value, ast.Name) and n.func.value.id == "self" and self.cls[-1] is not None:
+                    own = [m for c_, m in cands if c_ in mro_names(self.cls[-1])]
+                    if len(own) >= 1:
+                        sig = signature(own[0], True)
+                elif len(cands) == 1 and cands[0][0] is not None:
+                    sig = signature(cands[0][1], True)
+            elif isinstance(n.func, ast.Name):
+                cands = defs.get(n.func.id, [])
+                if len(cands) == 1 and cands[0][0] is None:
+                    sig = signature(cands[0][1], False)
+            if sig is None:
+                return n
+            ps, nreq = sig
+            pos = len(n.args)
+            moved = 0
+            while n.keywords and pos < nreq and pos < len(ps) and n.keywords[0].arg == ps[pos]:
+                n.args.append(n.keywords.pop(0).value)
+                pos += 1
+                moved += 1
+            count[0] += moved
+            return n
+
+    for t in trees.values():
+        P().visit(t)
+        if count[0]:
+            ast.fix_missing_locations(t)
+    return [f"{count[0]} argument(s) passed by keyword to required parameters read in their positions"] if count[0] else []
+
+
 def undo_singledispatch(tree: ast.Module) -> List[str]:
     """`@functools.singledispatch` / `@singledispatchmethod` generic functions are read as the isinstance chain they stand
     for: the generic function keeps its name and parameters, each registered implementation becomes one
